@@ -26,7 +26,7 @@ func TestProp(t *testing.T) {
 	pbt.Main(t, pbt.Spec{
 		ID:    "C03",
 		Level: "exploration",
-		Rule: "history: rapid draws a blob (0-2048 bytes, mostly 2-64, small alphabets so equal pieces occur), a piece length giving 0-8 pieces, and a history of steps: WritePiece run to completion, WritePiece on its own goroutine whose payload reader blocks after a drawn number of bytes until a later 'release' step (up to 4 writers held inside WritePiece at once, on the same or different pieces), release of a chosen held writer, re-creation of the Torrent through the archive, and HasPiece/GetPieceReader probes; payloads are the piece, one flipped bit, a shorter or longer buffer, another piece's bytes, a reader that fails after a strict prefix, a stream that ends early; indices are valid, N..N+3, -1, -2, MinInt32, MaxInt32. Every history writes each piece correctly at a drawn position (sometimes only some) and ends by releasing all writers and writing the missing pieces. Oracle = piece state machine written from the statement: a write returns nil exactly when its index is valid, its length and delivered bytes are the piece and the piece is neither verified nor being written; a write to a verified piece returns ErrPieceComplete; a write to a piece held by another writer is refused without consuming its payload; everything else is an error and leaves the piece writable. After every step Bitfield, Stat, HasPiece, MissingPieces, TorrentArchive.Stat equal the model's verified set, BytesDownloaded equals the verified bytes (a complete short last piece may count as a full piece), Complete() <=> all verified, cache file = blob <=> all verified (absent before, download file gone after), every verified piece is served with the blob's bytes and no unverified piece is served. non-trivial = a write to a writable piece was rejected for its content, or a same-piece conflict was forced; every case ends committed. stress: 1-3 batches of 2-8 writes (60% correct) over 0-4 pieces released together on goroutines, repeated 12 (quick) / 50 (thorough) times on fresh stores, with an observer goroutine; invariants: no panic, nil only for correct payloads and at most once per piece, nil/ErrPieceComplete imply HasPiece afterwards, reported pieces never disappear and are served with the blob's bytes, Complete() implies all bits and cache file = blob, after each batch Bitfield = accepted set, finally the missing pieces are accepted and the committed file = blob. non-trivial = some batch has several correct writers, or a correct and an incorrect writer, on one piece; evaluations = repetitions.",
+		Rule: "history: rapid draws a blob (0-2048 bytes, mostly 2-64, small alphabets so equal pieces occur), a piece length giving 0-8 pieces, and a history of steps: WritePiece run to completion, WritePiece on its own goroutine whose payload reader blocks after a drawn number of bytes until a later 'release' step (up to 4 writers held inside WritePiece at once, on the same or different pieces), release of a chosen held writer, re-creation of the Torrent through the archive, and HasPiece/GetPieceReader probes; payloads are the piece, one flipped bit, a shorter or longer buffer, another piece's bytes, a reader that fails after a strict prefix, a stream that ends early; indices are valid, N..N+3, -1, -2, MinInt32, MaxInt32. Every history writes each piece correctly at a drawn position (sometimes only some) and ends by releasing all writers and writing the missing pieces. Oracle = piece state machine written from the statement: a write returns nil exactly when its index is valid, its length and delivered bytes are the piece and the piece is neither verified nor being written; a write to a verified piece returns ErrPieceComplete; a write to a piece held by another writer is refused without consuming its payload; everything else is an error and leaves the piece writable. After every step Bitfield, Stat, HasPiece, MissingPieces, TorrentArchive.Stat equal the model's verified set, BytesDownloaded equals the verified bytes (a complete short last piece may count as a full piece), Complete() <=> all verified, cache file = blob <=> all verified (absent before, download file gone after), every verified piece is served with the blob's bytes and no unverified piece is served. non-trivial = a write to a writable piece was rejected for its content, or a same-piece conflict was forced; every case ends committed. stress: 1-3 batches of 2-8 writes (60% correct) over 0-4 pieces released together on goroutines, repeated 8 (quick) / 40 (thorough) times on fresh stores, with an observer goroutine; invariants: no panic, nil only for correct payloads and at most once per piece, nil/ErrPieceComplete imply HasPiece afterwards, reported pieces never disappear and are served with the blob's bytes, Complete() implies all bits and cache file = blob, after each batch Bitfield = accepted set, finally the missing pieces are accepted and the committed file = blob. non-trivial = some batch has several correct writers, or a correct and an incorrect writer, on one piece; evaluations = repetitions.",
 		Assumptions: []string{
 			"the metainfo handed to the agent is the blob's (fake metainfo client built with core.NewMetaInfo)",
 			"a payload reader never delivers more bytes than its Length() (connection payload buffers have len == Length)",
@@ -35,7 +35,7 @@ func TestProp(t *testing.T) {
 			"payloads that differ from the piece but collide on CRC32 are discarded (none observed)",
 		},
 		Parts: []pbt.Part{
-			pbt.NewPart("history", 5, genCase, runCase),
+			pbt.NewPart("history", 30, genCase, runCase),
 			pbt.NewPart("stress", 1, genStress, runStress),
 		},
 	})
